@@ -113,12 +113,10 @@ func (cs *CommandStatement) rearrange() {
 }
 
 func (cs *CommandStatement) split(str string) []*CommandStatementElement {
-	split := strings.Split(str, " ")
+	// words are separated by the whitespace of the grammar (see WS in the lexer): spaces and tabs
+	split := strings.FieldsFunc(str, func(r rune) bool { return r == ' ' || r == '\t' })
 	elements := make([]*CommandStatementElement, 0, len(split))
 	for _, word := range split {
-		if word == "" {
-			continue
-		}
 		value := valueFromCommandText(word)
 		elements = append(elements, &CommandStatementElement{
 			Expression: &Expression{Value: value},
